@@ -203,6 +203,26 @@ def fifo(r, F):
               "FifoPicker does not pick the oldest-filled block: %s" % {k: sorted(v) for k, v in calls.items()}, ln=None)
 
 
+def fifo_evict_position(r, F):
+    """FifoPicker::on_block_evict removes the EVICTED block from its queue: the position predicate answers true on equality with the evicted id"""
+    FP = "foyer_storage::engine::block::eviction::FifoPicker"
+    f = F.method(FP, "on_block_evict", "EvictionPicker")
+    pos = f.calls_to(r"Iterator::position$")
+    cl = [g for g in F.descendants(f) if g.calls_to(r"cmp::PartialEq::(eq|ne)$")]
+    ok = len(pos) == 1 and len(cl) == 1
+    if ok:
+        g = cl[0]
+        c = g.calls_to(r"cmp::PartialEq::(eq|ne)$")[0]
+        is_ne = c.term.callee.endswith("::ne")
+        ret = backslice(g, mir.Operand({"c": {"l": 0, "p": []}}), "prov")
+        negs = [s_ for b in g.blocks for s_ in b.stmts if s_.k == "assign" and s_.rv.k == "un" and s_.rv.op == "Not"]
+        ok = any(bb == c.idx for bb, _ in ret.calls) and (is_ne == bool(negs))
+    rm = f.calls_to(r"VecDeque::<T, A>::remove$")
+    ok = ok and len(rm) == 1 and any(bb == pos[0].idx for bb, _ in backslice(f, rm[0].term.args[1], "prov").calls)
+    r.require(ok, f, "FifoPicker::on_block_evict removes the evicted block", "queue.remove(position(|r| r == block))", "FifoPicker::on_block_evict removes another block than the evicted one from its queue: "
+              "the evicted block is picked again although it is no longer evictable, and a full block is forgotten", ln=f.lo)
+
+
 def reinsertion(r, F):
     rc = F.fn("<foyer_storage::engine::block::reclaimer::Reclaimer<K, V, P> as foyer_storage::engine::block::reclaimer::ReclaimerTrait>::reclaim::{closure#0}")
     aggs = [s for b in rc.blocks if not b.cleanup for s in b.stmts if s.k == "assign" and s.rv.k == "agg" and (s.rv.j.get("adt") or "").endswith("reclaimer::Reinsertion")]
@@ -322,6 +342,7 @@ def run(chk, F):
     chk.run_rule("C09.pickers-and-init", "taken eviction pickers are restored on every path; init partitions blocks into clean and evictable", 4, pickers_and_init, F)
     chk.run_rule("C09.release-raii", "ReclaimingBlock::drop returns the block; reclaim removes index entries, then cleans, then releases", 4, release_raii, F)
     chk.run_rule("C09.fifo", "clean queue pop_front/push_back; FifoPicker queues at the back and picks the front", 2, fifo, F)
+    chk.run_rule("C09.fifo-evict-position", "the FIFO picker forgets exactly the block that was evicted", 1, fifo_evict_position, F)
     chk.run_rule("C09.reinsertion", "a re-inserted entry keeps hash, length and sequence and is skipped when the key left the index", 4, reinsertion, F)
     chk.run_rule("C09.reinsertion-size-limit", "push_slice (re-insertion) accepts exactly the entry sizes push (insertion) accepts", 1, size_limit_siblings, F)
     chk.run_rule("C09.only-full", "only completely written blocks are handed to on_writing_finish", 1, only_full, F)
